@@ -353,7 +353,7 @@ fn parse_filter(s: &str) -> Filter {
 struct Shared { handles: HashMap<u64, Span>, ids: HashMap<u64, Id> }
 static METADATA: Metadata<'static> = Metadata::new(module_path!(), metrics::Level::INFO, Some(module_path!()));
 
-fn exec(ev: &Ev, sh: &Mutex<Shared>, ctxs: &[TracingContext<Log, Filter>]) {
+fn exec(ev: &Ev, sh: &Mutex<Shared>, ctxs: &[TracingContext<Log, Filter>], dispatch: &Dispatch) {
     match ev {
         Ev::New(id, par, fields) => {
             let mut sh = sh.lock().unwrap();
@@ -399,7 +399,10 @@ fn exec(ev: &Ev, sh: &Mutex<Shared>, ctxs: &[TracingContext<Log, Filter>]) {
         }
         Ev::Exit(id) => {
             let sid = sh.lock().unwrap().ids.get(id).cloned();
-            if let Some(sid) = sid { tracing::dispatcher::get_default(|d| d.exit(&sid)); }
+            // Exit through the Dispatch itself, as Span's exit guard does.  NOT inside dispatcher::get_default: Registry::exit
+            // releases the reference taken by enter with a nested get_default(.. try_close ..), which tracing answers with the
+            // no-op dispatcher when it is re-entered -- the span would then never close while the case runs.
+            if let Some(sid) = sid { dispatch.exit(&sid); }
         }
         Ev::Drop(id) => {
             let span = sh.lock().unwrap().handles.remove(id);
@@ -445,7 +448,7 @@ fn run_case(line: &str) -> String {
         joins.push(std::thread::spawn(move || {
             tracing::dispatcher::with_default(&dispatch, || {
                 while let Ok(Some(ev)) = rx.recv() {
-                    let r = std::panic::catch_unwind(std::panic::AssertUnwindSafe(|| exec(&ev, &shared, &ctxs)));
+                    let r = std::panic::catch_unwind(std::panic::AssertUnwindSafe(|| exec(&ev, &shared, &ctxs, &dispatch)));
                     rtx.send(r.map_err(panic_msg)).unwrap();
                 }
             })
@@ -458,7 +461,8 @@ fn run_case(line: &str) -> String {
     }
     // drop the handles while the dispatcher is still the default somewhere, then stop the workers
     if failure.is_none() {
-        if let Ok(mut sh) = shared.lock() { sh.handles.clear(); }
+        // (under the dispatcher: a closing span releases its parent through the thread's default dispatcher)
+        tracing::dispatcher::with_default(&dispatch, || { if let Ok(mut sh) = shared.lock() { sh.handles.clear(); } });
     }
     for tx in &txs { let _ = tx.send(None); }
     for j in joins {
